@@ -681,6 +681,46 @@ def parents(rel):
     return out
 
 
+# //line directives (goyacc / ragel / cgo style): they fake position information; the file an interface is
+# declared in is still the .go file that was parsed.  $D = directory of the package, $R = case root.
+LINE_PRE = ["//line grammar/parser.y:2", "//line ../sibling/gen.go:7", "//line $R/m/zz/abs.go:1", "/*line x.go:1:1*/",
+            "//line other.go:10", "//line $D/../sibling/gen.go:3", "/*line ../sibling/y.go:4:2*/"]
+LINE_MID = ["//line other.go:10", "/*line gen/y.go:3:1*/", "//line $R/m/zz/abs.go:20", "//line ../sibling/gen.go:40",
+            "//line grammar/parser.y:100"]
+
+
+def b_srcfiles(c):
+    """Source files of the package: [{'fname', 'names', 'pre' (directive before the package clause), 'mid'
+    (directive before every declaration)}]; c['names'] decides which interfaces exist."""
+    fs = c.get("srcfiles") or [{"fname": c["fname"], "names": list(c["names"]), "pre": "", "mid": ""}]
+    out = []
+    for f in fs:
+        ns = [n for n in f["names"] if n in c["names"]]
+        if ns:
+            out.append(dict(f, names=ns))
+    return out
+
+
+def b_ifaces(c, R):
+    """[(interface name, absolute path of the file that declares it)] in the order of c['names']"""
+    where = {n: go_clean(R + "/m/" + c["pkgrel"] + "/" + f["fname"]) for f in b_srcfiles(c) for n in f["names"]}
+    return [(n, where[n]) for n in c["names"]]
+
+
+def src_text(c, f, R):
+    D = go_clean(R + "/m/" + c["pkgrel"])
+    sub = lambda t: t.replace("$D", D).replace("$R", R)
+    out = []
+    if f["pre"]:
+        out.append(sub(f["pre"]))
+    out.append("package %s\n" % c["srcname"])
+    for n in f["names"]:
+        if f["mid"]:
+            out.append(sub(f["mid"]))
+        out.append("type %s interface{ M() }\n" % real(n))
+    return "\n".join(out)
+
+
 def gen_bcase(rng, idx, want=None):
     """Abstract description; paths are relative to the case root '$R' (= .../top), module in $R/m."""
     want = want or {}
@@ -691,6 +731,22 @@ def gen_bcase(rng, idx, want=None):
     names = [rng.choice(B_NAMES_EXP if rng.random() < 0.5 else B_NAMES_UNEXP)]
     if two:
         names = [rng.choice(B_NAMES_EXP), rng.choice(B_NAMES_UNEXP)]
+    srcfiles = None
+    r = rng.random()
+    if r < 0.3:          # one plain file and one or two files that carry //line directives, interfaces in each
+        nf = rng.choice([2, 2, 3])
+        pool = rng.sample(B_NAMES_EXP, 2) + rng.sample(B_NAMES_UNEXP, 2)
+        rng.shuffle(pool)
+        names = pool[:rng.randint(nf, 4)]
+        fnames = [fname] + rng.sample(["parser.go", "lexer_gen.go", "y.go", "zz_cgo.go"], nf - 1)
+        srcfiles = [{"fname": fn, "names": [], "pre": "", "mid": ""} for fn in fnames]
+        for i, n in enumerate(names):
+            srcfiles[i % nf]["names"].append(n)
+        for f in srcfiles[1:]:
+            f["pre"] = rng.choice(LINE_PRE) if rng.random() < 0.8 else ""
+            f["mid"] = rng.choice(LINE_MID) if (rng.random() < 0.5 or not f["pre"]) else ""
+    elif r < 0.38:       # a single file with directives
+        srcfiles = [{"fname": fname, "names": list(names), "pre": rng.choice(LINE_PRE), "mid": rng.choice(LINE_MID + [""])}]
     cwd_rel = rng.choice(parents(pkgrel)) if rng.random() < 0.92 else "other"
     mode = want.get("mode") or rng.choices(["search", "flag_abs", "flag_rel", "env_abs", "env_rel", "env_and_flag", "none"],
                                           [38, 14, 16, 10, 8, 8, 3])[0]
@@ -725,6 +781,8 @@ def gen_bcase(rng, idx, want=None):
         r = rng.random()
         if k == "dir" and idr_ok:
             params[k], kinds[k] = rng.choice(B_DIR_IDR), "idr"
+        elif srcfiles and k in ("dir", "filename") and r < 0.55:
+            params[k], kinds[k] = rng.choice([x for x in pool if "InterfaceDir}}" in x or "InterfaceDir " in x or "InterfaceFile" in x] or pool), "ifacefile"
         elif k == "dir" and r < 0.45:
             params[k], kinds[k] = rng.choice([x for x in B_DIR if "ConfigDir" in x]), "configdir"
         elif r < 0.15:
@@ -749,7 +807,7 @@ def gen_bcase(rng, idx, want=None):
     level = rng.choice(["root", "root", "package"])
     return {"idx": idx, "pkgrel": pkgrel, "srcname": srcname, "fname": fname, "names": names, "cwd": cwd, "mode": mode,
             "cfgpath": cfgpath, "decoys": decoys, "relspell": relspell, "probe": probe, "params": params, "kinds": kinds,
-            "level": level, "listed": rng.random() < 0.4}
+            "level": level, "listed": rng.random() < 0.4, **({"srcfiles": srcfiles} if srcfiles else {})}
 
 
 def b_paths(c, R):
@@ -784,8 +842,8 @@ def b_expect(c, R):
         return ("fail", "no config file")
     abs_cd = go_dir(P["cfg_abs"])
     per, deep = [], False
-    for name in c["names"]:
-        vars = doc_vars(name, P["file"], c["srcname"], P["pkgpath"], c["params"]["structname"], P["template"], P["used"], abs_cd, P["cwd"])
+    for name, file in b_ifaces(c, R):
+        vars = doc_vars(name, file, c["srcname"], P["pkgpath"], c["params"]["structname"], P["template"], P["used"], abs_cd, P["cwd"])
         if uses_idr(c["params"]) and vars["InterfaceDirRelative"] is None:
             return ("skip", "InterfaceDirRelative not determined by the documentation")
         w = o_judge(vars, c["params"])
@@ -820,7 +878,7 @@ def b_sane(c, R):
             return False
         if not IDENT.match(real(pkg)) or not IDENT.match(real(sn)) or not ascii_only(pkg):
             return False
-        if os.path.basename(path) == c["fname"] and os.path.dirname(path) == os.path.dirname(b_paths(c, R)["file"]):
+        if path in {f for _, f in b_ifaces(c, R)}:
             return False
     if len({(p, s) for p, _, s, _ in per}) != len(per):
         return False
@@ -843,8 +901,8 @@ def b_expect_cwd_reading(c, R):
     """The implemented reading of InterfaceDirRelative (relative to the working directory)."""
     P = b_paths(c, R)
     per = []
-    for name in c["names"]:
-        v = doc_vars(name, P["file"], c["srcname"], P["pkgpath"], c["params"]["structname"], P["template"], P["used"], P["cwd"], P["cwd"])
+    for name, file in b_ifaces(c, R):
+        v = doc_vars(name, file, c["srcname"], P["pkgpath"], c["params"]["structname"], P["template"], P["used"], P["cwd"], P["cwd"])
         if v["InterfaceDirRelative"] is None:
             v["InterfaceDirRelative"] = "."
         w = o_judge(v, c["params"])
@@ -918,8 +976,15 @@ def b_materialize(c, R, schema_path):
     os.makedirs(P["cwd"], exist_ok=True)
     open(R + "/m/go.mod", "w").write(GO_MOD)
     shutil.copy(str(REPO / "go.sum"), R + "/m/go.sum")
-    src = "package %s\n\n" % c["srcname"] + "".join("type %s interface{ M() }\n" % real(n) for n in c["names"])
-    open(P["file"], "wb").write(src.encode("utf-8"))
+    D = R + "/m/" + c["pkgrel"]
+    for f in b_srcfiles(c):
+        open(D + "/" + f["fname"], "wb").write(src_text(c, f, R).encode("utf-8"))
+    if c.get("srcfiles"):
+        # the directories that the directives name exist (a wrong binding would write there without complaint)
+        for d, pk in ((go_clean(D + "/../sibling"), "sibling"), (R + "/m/zz", "zz"), (D + "/grammar", "grammar"), (D + "/gen", "gen")):
+            if d.startswith(R + "/m/"):
+                os.makedirs(d, exist_ok=True)
+                open(d + "/doc.go", "w").write("package %s\n" % pk)
     open(R + "/m/probe.templ", "w").write(PROBE)
     if c["mode"] != "none":
         os.makedirs(os.path.dirname(P["cfg_abs"]), exist_ok=True)
@@ -1016,7 +1081,7 @@ def bcase_term(c, R, obs, nfiles):
     return ("{| b_cwd := %s; b_envcfg := %s; b_flagcfg := %s; b_files := %s; b_pkgname := %s; b_pkgpath := %s; "
             "b_template := %s; b_ifaces := %s; b_params := %s; b_nfiles := %d; b_obs := %s |}") % (
         b(P["cwd"]), b(P["env"]), b(P["flag"]), coq_list(b(x) for x in obs["cfgfiles"]), b(c["srcname"]), b(P["pkgpath"]),
-        b(P["template"]), coq_list(iface_term(n, P["file"]) for n in c["names"]), params_term(c["params"]), nfiles, o)
+        b(P["template"]), coq_list(iface_term(n, f) for n, f in b_ifaces(c, R)), params_term(c["params"]), nfiles, o)
 
 
 def b_in_idr_class(c, R):
@@ -1027,6 +1092,8 @@ def b_in_idr_class(c, R):
 def b_describe(c, R, obs=None, exp=None):
     P = b_paths(c, R)
     d = {"layout": {"module": "$R/m (module example.com/m)", "interface file": P["file"].replace(R, "$R"), "interfaces": [real(n) for n in c["names"]],
+                    "source files": [{"file": "$R/m/%s/%s" % (c["pkgrel"], f["fname"]), "interfaces": [real(n) for n in f["names"]],
+                                      "directive before the package clause": f["pre"], "directive before each declaration": f["mid"]} for f in b_srcfiles(c)],
                     "source package": c["srcname"], "working directory": P["cwd"].replace(R, "$R"),
                     "config file": P["cfg_abs"].replace(R, "$R"), "found by": c["mode"],
                     "--config": P["flag"].replace(R, "$R"), "MOCKERY_CONFIG": P["env"].replace(R, "$R"),
@@ -1047,6 +1114,8 @@ def b_shrink(ctx, c, R, still_fails):
     trials = []
     if len(cur["names"]) > 1:
         trials += [("names", [n]) for n in cur["names"]]
+    if cur.get("srcfiles"):
+        trials += [("srcfiles", [dict(f, pre="", mid="") for f in cur["srcfiles"]]), ("srcfiles", [dict(f, mid="") for f in cur["srcfiles"]])]
     trials += [("decoys", []), ("level", "root"), ("listed", False), ("probe", False)]
     for k, v in trials:
         cand = dict(cur, **{k: v})
@@ -1101,6 +1170,15 @@ def corpus_b():
            mk(mode="flag_rel"), mk(mode="env_abs", cfgpath="m/conf/cfg.yml"),
            mk(params=dict(DEFAULTS, structname="{{.StructName}}x")),
            mk(cwd="m", params=dict(DEFAULTS, dir="{{.InterfaceDirRelative}}/mk", filename="mock_{{.InterfaceName}}.go"))]
+    # interfaces in files that carry //line directives: the declaring file is the real .go file
+    ln = lambda pre, mid, **kw: mk(names=["Foo", "bar", "Reader"], cwd="m", cfgpath="m/.mockery.yml",
+                                   srcfiles=[{"fname": "a.go", "names": ["Foo"], "pre": "", "mid": ""},
+                                             {"fname": "parser.go", "names": ["bar"], "pre": pre, "mid": mid},
+                                             {"fname": "y.go", "names": ["Reader"], "pre": "", "mid": "//line other.go:10"}],
+                                   **dict({"params": dict(DEFAULTS, filename="mock_{{.InterfaceFile | base | trimSuffix \".go\"}}_{{.InterfaceName}}_test.go")}, **kw))
+    out += [ln("//line grammar/parser.y:2", ""), ln("//line ../sibling/gen.go:7", "/*line gen/y.go:3:1*/"),
+            ln("//line $R/m/zz/abs.go:1", "//line $R/m/zz/abs.go:20"), ln("/*line x.go:1:1*/", ""),
+            ln("//line ../sibling/gen.go:7", "", params=dict(DEFAULTS, dir="{{.InterfaceDir}}/mocks", filename="mock_{{.InterfaceName}}.go"))]
     f = VERIF / "corpus" / "C11" / "bcases.json"
     if f.exists():
         out += json.loads(f.read_text())
@@ -1323,6 +1401,14 @@ def check(ctx, only=None):
         hist["resolver_outcomes"][o["k"]] = hist["resolver_outcomes"].get(o["k"], 0) + 1
     for (c, wit), (R, exp, obs) in zip(allb, bres):
         hist["run_modes"][c["mode"]] = hist["run_modes"].get(c["mode"], 0) + 1
+        for f in b_srcfiles(c):
+            for kind, d in (("before package clause", f["pre"]), ("between declarations", f["mid"])):
+                form = "none" if not d else ("/*line*/" if d.startswith("/*") else "//line") + (" absolute" if "$" in d else (" other directory" if "/" in d.split(":")[0].split(" ", 1)[-1] else " same directory"))
+                hist.setdefault("line_directives", {}).setdefault(kind, {})
+                hist["line_directives"][kind][form] = hist["line_directives"][kind].get(form, 0) + 1
+        hist.setdefault("source_files_per_package", {})
+        nsf = str(len(b_srcfiles(c)))
+        hist["source_files_per_package"][nsf] = hist["source_files_per_package"].get(nsf, 0) + 1
         oc = "hang" if obs["hang"] else ("exit0" if obs["rc"] == 0 else "exit-nonzero")
         hist["run_outcomes"][oc] = hist["run_outcomes"].get(oc, 0) + 1
         P = b_paths(c, R)
@@ -1336,7 +1422,7 @@ def check(ctx, only=None):
     samples = [d_replay(c, root) | {"observed": o["k"]} for c, o in list(zip(dcases, outs))[12:14]] + \
               [b_describe(c, R, obs, exp) for (c, _), (R, exp, obs) in list(zip(allb, bres))[:2]]
     ctx.write_evidence(gate, len(dcases) + len(allb), len(nontriv) + len(nontriv_b),
-                       "resolver calls: seeded values (literals, variables, pipelines of the modelled functions, references through StructName, escaping chains of depth 1..25 around the cap, self references, malformed templates) in all five parameters, non-trivial = at least one value changed or an error; binary runs: seeded layouts (config next to / above the working directory, found by search, --config, MOCKERY_CONFIG; interface file 1-3 levels deep; exported and unexported interfaces), every run counted; distinct by full input",
+                       "resolver calls: seeded values (literals, variables, pipelines of the modelled functions, references through StructName, escaping chains of depth 1..25 around the cap, self references, malformed templates) in all five parameters, non-trivial = at least one value changed or an error; binary runs: seeded layouts (config next to / above the working directory, found by search, --config, MOCKERY_CONFIG; interface file 1-3 levels deep; packages with a plain source file and one or two files carrying //line and /*line*/ directives before the package clause and between declarations, naming files in the same, a sibling (existing) or an absolute directory; exported and unexported interfaces), every run counted; distinct by full input",
                        samples,
                        extra={"histogram": hist, "resolver_calls": len(dcases), "binary_runs": len(allb), "witness_runs": len(witnesses_b),
                               "resolver_mismatches": len(d_bad), "run_mismatches": len(b_bad), "oracle_failures": len(d_fail) + len(b_fail),
